@@ -575,7 +575,7 @@ def run_job(prop, job, run_dir, want_functions=True):
         info["cbmc_cmd"] = " ".join(cmd[:1] + ["<goto>"] + cmd[2:] + SOLVER_FLAGS.get(label, []))
         info["cbmc_wall_s"] = round(wall, 2)
         if rc == -9:
-            raise Inconclusive("cbmc timed out after %ss" % job.timeout)
+            raise Inconclusive("cbmc did not finish: timed out after %ss, or was killed (out of memory)" % job.timeout)
         parsed = parse_cbmc_json(so)
         if parsed is None or not parsed["results"]:
             tail = (so[-1500:] + "\n" + se[-1500:])
@@ -679,6 +679,9 @@ def run_job(prop, job, run_dir, want_functions=True):
 
 
 def run_property(prop, tier, jobs, meta, seed=0, workers=None):
+    # thorough jobs are several times larger: fewer at a time, so that memory is not exhausted
+    if workers is None and tier == "thorough":
+        workers = min(6, max(1, len(jobs)))
     """Run all jobs of a property, print the verdict lines, write evidence, return rc."""
     t0 = time.time()
     run_dir = os.path.join(WORK, "run-%s-%d" % (prop, os.getpid()))
